@@ -16,8 +16,38 @@ type RunRec struct {
 	occ    map[string]int
 	// Body, when set, is called inside every lambda body before it computes (e.g. vsched.Yield, fault injection).
 	Body func(ctx context.Context, path string, in Val) error
+	// After, when set, is called at the end of every lambda body (after the node function was computed).
+	After func(ctx context.Context, path string)
 	// BranchEvals counts branch condition evaluations.
 	BranchEvals int
+	// Post counts state post-handler executions per node path (see PostCounter).
+	Post map[string]int
+	// Pre counts state pre-handler executions per node path.
+	Pre map[string]int
+}
+
+// St is the graph state type used by instrumented programs.
+type St struct {
+	Counter int
+	Log     []string
+}
+
+// GenState is a state generator for compose.WithGenLocalState.
+func GenState(ctx context.Context) *St { return &St{} }
+
+// PostCounter is a state post-handler that counts collections of the node at path.
+func PostCounter(path string) compose.GraphAddNodeOpt {
+	return compose.WithStatePostHandler(func(ctx context.Context, out Val, st *St) (Val, error) {
+		if r := RunOf(ctx); r != nil {
+			r.mu.Lock()
+			if r.Post == nil {
+				r.Post = map[string]int{}
+			}
+			r.Post[path]++
+			r.mu.Unlock()
+		}
+		return out, nil
+	})
 }
 
 type recKey struct{}
@@ -105,7 +135,11 @@ func LambdaBody(ctx context.Context, path string, key string, in Val) (Val, erro
 			}
 		}
 	}
-	return NodeFn(key, in), nil
+	out := NodeFn(key, in)
+	if r != nil && r.After != nil {
+		r.After(ctx, path)
+	}
+	return out, nil
 }
 
 func mkBranch(srcPath string, idx int, b Branch) *compose.GraphBranch {
